@@ -1,0 +1,219 @@
+//go:build verif
+
+package dastard
+
+// Verification hooks for properties C10 (source life cycle) and C11 (control requests), build tag
+// "verif" only: constructors, accessors and scripted test doubles.  No logic of dastard is changed.
+
+import (
+	"fmt"
+	"sync"
+	"time"
+
+	"github.com/usnistgov/dastard/lancero"
+	"github.com/usnistgov/dastard/packets"
+)
+
+var verifC10Once sync.Once
+
+// VerifC10Setup gives the package-level publication channels to the harness (so that no ZMQ port is
+// bound) and keeps them and the client-update channel drained.  Idempotent.
+func VerifC10Setup() {
+	verifC10Once.Do(func() {
+		if PubRecordsChan == nil {
+			PubRecordsChan = make(chan []*DataRecord, 64)
+		}
+		if PubSummariesChan == nil {
+			PubSummariesChan = make(chan []*DataRecord, 64)
+		}
+		rc, sc := PubRecordsChan, PubSummariesChan
+		go func() {
+			for range rc {
+			}
+		}()
+		go func() {
+			for range sc {
+			}
+		}()
+		go func() {
+			for range clientMessageChan {
+			}
+		}()
+	})
+}
+
+// ---- a scripted PacketProducer for AbacoSource ----
+
+// VerifC10Producer produces a steady, gap-free packet stream (or fails as scripted) and counts
+// start/stop calls so that the harness can tell whether the "device" is still open.
+type VerifC10Producer struct {
+	StartErr  bool // start() fails
+	SampleErr bool // samplePackets fails after start() succeeded
+	NoData    bool // samplePackets sees no packets (hardware not sending yet)
+	Nchan     int
+
+	mu     sync.Mutex
+	silent bool
+	starts int
+	stops  int
+	sn     uint32
+	ts     uint64
+}
+
+const verifC10FramesPerPacket = 25
+
+func (p *VerifC10Producer) makePackets(n int) []*packets.Packet {
+	out := make([]*packets.Packet, 0, n)
+	for i := 0; i < n; i++ {
+		p.sn++
+		p.ts += verifC10FramesPerPacket * 1000
+		pk := packets.NewPacket(10, 20, p.sn-1, 0) // NewData increments the sequence number
+		d := make([]int16, verifC10FramesPerPacket*p.Nchan)
+		if err := pk.NewData(d, []int16{int16(p.Nchan)}); err != nil {
+			panic(err)
+		}
+		pk.SetTimestamp(packets.MakeTimestamp(uint16(p.ts>>32), uint32(p.ts), 1e9))
+		out = append(out, pk)
+	}
+	return out
+}
+
+// ReadAllPackets returns the next two packets of the stream (nothing while silent).
+func (p *VerifC10Producer) ReadAllPackets() ([]*packets.Packet, error) {
+	p.mu.Lock()
+	defer p.mu.Unlock()
+	if p.silent {
+		return nil, nil
+	}
+	return p.makePackets(2), nil
+}
+
+func (p *VerifC10Producer) samplePackets(d time.Duration) ([]*packets.Packet, error) {
+	p.mu.Lock()
+	defer p.mu.Unlock()
+	if p.SampleErr {
+		return nil, fmt.Errorf("scripted producer: sampling failed")
+	}
+	if p.NoData {
+		return nil, nil
+	}
+	return p.makePackets(4), nil
+}
+
+func (p *VerifC10Producer) start() error {
+	p.mu.Lock()
+	defer p.mu.Unlock()
+	if p.StartErr {
+		return fmt.Errorf("scripted producer: cannot open device")
+	}
+	p.starts++
+	return nil
+}
+
+func (p *VerifC10Producer) discardStale() error { return nil }
+
+func (p *VerifC10Producer) stop() error {
+	p.mu.Lock()
+	defer p.mu.Unlock()
+	p.stops++
+	return nil
+}
+
+// VerifOpen tells whether the device has been opened more often than closed.
+func (p *VerifC10Producer) VerifOpen() bool {
+	p.mu.Lock()
+	defer p.mu.Unlock()
+	return p.starts > p.stops
+}
+
+// VerifSetSilent makes the producer stop / resume delivering packets.
+func (p *VerifC10Producer) VerifSetSilent(b bool) {
+	p.mu.Lock()
+	defer p.mu.Unlock()
+	p.silent = b
+}
+
+// VerifC10NewAbaco returns an AbacoSource whose packet producers are the given scripted ones.
+func VerifC10NewAbaco(prods ...*VerifC10Producer) (*AbacoSource, error) {
+	as, err := NewAbacoSource()
+	if err != nil {
+		return nil, err
+	}
+	as.VerifC10SetProducers(prods...)
+	return as, nil
+}
+
+// VerifC10SetProducers plays the role of Configure for scripted producers.
+func (as *AbacoSource) VerifC10SetProducers(prods ...*VerifC10Producer) {
+	as.unwrapOpts = AbacoUnwrapOptions{}
+	as.producers = make([]PacketProducer, 0, len(prods))
+	for _, p := range prods {
+		as.producers = append(as.producers, p)
+	}
+}
+
+// VerifC10NewLancero returns a LanceroSource with one active device backed by the given card
+// (nrows rows; the number of columns is found by sampling, as with real hardware).
+func VerifC10NewLancero(card lancero.Lanceroer, nrows int) *LanceroSource {
+	ls := new(LanceroSource)
+	ls.name = "Lancero"
+	ls.nsamp = 1
+	ls.channelsPerPixel = 2
+	ls.firstRowChanNum = 1
+	ls.clockMHz = 125
+	dev := &LanceroDevice{devnum: 0, card: card, nrows: nrows, lsync: 40, clockMHz: 125}
+	ls.devices = map[int]*LanceroDevice{0: dev}
+	ls.active = []*LanceroDevice{dev}
+	ls.ncards = 1
+	return ls
+}
+
+// ---- SourceControl in process (C11) ----
+
+// VerifC11NewSourceControl builds a SourceControl as RunRPCServer does, without any socket.
+func VerifC11NewSourceControl(npre, nsamp int) *SourceControl {
+	VerifC10Setup()
+	sc := NewSourceControl()
+	sc.clientUpdates = clientMessageChan
+	ms := newMapServer()
+	ms.clientUpdates = clientMessageChan
+	sc.mapServer = ms
+	sc.status.Npresamp = npre
+	sc.status.Nsamples = nsamp
+	sc.ActiveSource = sc.triangle
+	hb := sc.heartbeats
+	go func() {
+		for range hb {
+		}
+	}()
+	return sc
+}
+
+// VerifIsSourceActive exposes the RPC layer's own idea of whether a source runs.
+func (s *SourceControl) VerifIsSourceActive() bool { return s.isSourceActive }
+
+// VerifSetLancero replaces the Lancero source object (scripted card).
+func (s *SourceControl) VerifSetLancero(ls *LanceroSource) {
+	ls.heartbeats = s.heartbeats
+	s.lancero = ls
+}
+
+// VerifActiveAny returns the AnySource part of the source selected by the last Start (nil if unknown).
+func (s *SourceControl) VerifActiveAny() *AnySource {
+	switch v := s.ActiveSource.(type) {
+	case *TriangleSource:
+		return &v.AnySource
+	case *SimPulseSource:
+		return &v.AnySource
+	case *ErroringSource:
+		return &v.AnySource
+	case *LanceroSource:
+		return &v.AnySource
+	case *AbacoSource:
+		return &v.AnySource
+	}
+	return nil
+}
+
+// VerifNchan / VerifWritingBasePath: small accessors used to build valid and invalid arguments.
+func (ds *AnySource) VerifNchan() int { return ds.nchan }
